@@ -1,12 +1,14 @@
-"""E1-array (tabulation loops): XORGame.to_nonlocal_game builds the general game whose predicate is
-    V[a, b, x, y] = [pred[x, y] == a XOR b]        for all question-set sizes,
-over the same question distribution and with the same number of repetitions (NonlocalGame's constructor by contract)."""
+"""E1-array (tabulation loops): XORGame.to_nonlocal_game returns NonlocalGame(prob_mat, V, reps=reps) -- the general game constructed from the
+same question distribution, the same number of repetitions and the single-round predicate
+    V[a, b, x, y] = [pred[x, y] == a XOR b]        for all question-set sizes.
+NonlocalGame's constructor is an opaque constructor term here: the postcondition is about the three arguments it receives (what the constructor
+does with `reps` > 1 -- the product game -- belongs to C07 and is a bounded clause there)."""
 from __future__ import annotations
 
 REL = "toqito/nonlocal_games/xor_game.py"
 ASSUMED = [
     "np.ndarray(shape) allocates an array every entry of which is then written exactly once by the four nested loops (checked: the blocks (a, b) in {0,1}^2 are each written by one tabulation nest over all (x, y)); a comparison `pred[x, y] == c` is the 0/1 indicator of that entry",
-    "NonlocalGame(prob_mat, pred_mat, reps=r) stores its arguments (for r == 1; the constructor's repetition expansion is a bounded clause of C07)",
+    "NonlocalGame(prob_mat, pred_mat, reps=r) is an opaque constructor: the obligation is that it receives (self.prob_mat, V, self.reps); how the constructor expands r > 1 repetitions is not part of this proof (bounded clause of C07)",
 ]
 
 
@@ -16,7 +18,7 @@ def _nlg(interp, args, kw):
     from contracts import index_layer as IL
 
     IL.pre(interp, "NonlocalGame(prob_mat, pred_mat, reps): two positional arguments", len(args) == 2)
-    return types.SimpleNamespace(prob_mat=args[0], pred_mat=args[1], reps=kw.get("reps", 1))
+    return types.SimpleNamespace(ctor_prob_mat=args[0], ctor_pred_mat=args[1], ctor_reps=kw.get("reps", 1))
 
 
 def records(src=None):
@@ -55,9 +57,9 @@ def records(src=None):
             return out
 
         V = sym.SymArray((sp.Integer(2), sp.Integer(2), q0, q1), g, "poly")
-        return {"pred_mat": (V, [[sp.Integer(2)], [sp.Integer(2)], [q0], [q1]]), "prob_mat": (self.prob_mat, "is"), "reps": (reps, None)}
+        return {"ctor_pred_mat": (V, [[sp.Integer(2)], [sp.Integer(2)], [q0], [q1]]), "ctor_prob_mat": (self.prob_mat, [[q0], [q1]]), "ctor_reps": (reps, None)}
 
-    recs, ms = verify_instance("to_nonlocal_game", "XORGame.to_nonlocal_game: V[a,b,x,y] = [pred[x,y] == a xor b], same distribution and repetitions; all question-set sizes", {"to_nonlocal_game": fn}, {"NonlocalGame": _nlg}, mk, spec, (lambda a, k: None), atoms=[q0, q1])
+    recs, ms = verify_instance("to_nonlocal_game", "XORGame.to_nonlocal_game == NonlocalGame(prob_mat, V, reps=reps) with V[a,b,x,y] = [pred[x,y] == a xor b]; all question-set sizes, all reps", {"to_nonlocal_game": fn}, {"NonlocalGame": _nlg}, mk, spec, (lambda a, k: None), atoms=[q0, q1])
     for i, x in enumerate(recs):
         x["clean"] = False
         x["engine"] = "E1-array/bilinear"
